@@ -36,7 +36,6 @@ inline void svprintscripts(std::vector<std::string>& l, int& lmax, std::vector<C
     char buf[1024];
     opcodetype opcode;
     valtype vchPushValue;
-    bool begun = false;
     if (tce) {
         auto desc = tce->Description();
         std::string header = "<<< taproot commitment >>>";
@@ -52,7 +51,7 @@ inline void svprintscripts(std::vector<std::string>& l, int& lmax, std::vector<C
     for (size_t siter = 0; siter < scripts.size(); ++siter) {
         CScript* script = scripts[siter];
 
-        if (begun) {
+        if (siter > 0) { // "it" points into the first script only; an undecodable operation at "it" must not carry it over into the next script
             if (headers[siter] != "") {
                 if (headers[siter].length() > lmax) lmax = headers[siter].length();
                 l.push_back(headers[siter]);
@@ -61,7 +60,6 @@ inline void svprintscripts(std::vector<std::string>& l, int& lmax, std::vector<C
         }
 
         while (script->GetOp(it, opcode, vchPushValue)) {
-            begun = true;
             char* pbuf = buf;
             if (vchPushValue.size() > 0) {
                 snprintf(pbuf, 1024, "%s", HexStr(std::vector<uint8_t>(vchPushValue.begin(), vchPushValue.end())).c_str());
@@ -72,8 +70,6 @@ inline void svprintscripts(std::vector<std::string>& l, int& lmax, std::vector<C
             if (s.length() > lmax) lmax = s.length();
             l.push_back(s);
         }
-
-        if (it == script->end()) begun = true;
     }
 }
 
